@@ -405,3 +405,53 @@ func verifC08_declared() {
 	c.CloseNow()
 	vObserve("c08declared", declared, len(got), nClose)
 }
+
+// C08.waiting: the limit is changed between two messages while a reader is already waiting for the next message (it
+// called Read before the message arrived; SetReadLimit is called from another goroutine). The limit in force when the
+// message arrives is the new one.
+func verifC08_waiting() {
+	client := vParam("client", 1) == 1
+	vInstallRand()
+	limits := []int{-1, 1, 3}
+	L1 := limits[vChoose("L1", len(limits))]
+	L2 := limits[vChoose("L2", len(limits))]
+	n := 1 + vChoose("n", 4)
+	d := vBytes("d", n)
+	var cuts []int
+	if n > 1 && vChoose("frag", 2) == 1 {
+		cuts = []int{1}
+	}
+	t := vNewTransport(vEncodeFrames(vDataFrames(d, cuts, 2, false, client)))
+	t.endMode = vEndBlock
+	gate := t.vTimedGate(0)
+	c := vNewConn(t, client, nil, 64, 256)
+	c.SetReadLimit(int64(L1))
+	type res struct {
+		b   []byte
+		err error
+	}
+	done := make(chan res, 1)
+	go func() {
+		_, b, err := c.Read(vBG)
+		done <- res{b, err}
+	}()
+	vGhostSettle() // the reader waits for the first frame of the next message
+	c.SetReadLimit(int64(L2))
+	t.vOpenGate(gate)
+	r := <-done
+	vReach("C08.waiting.read")
+	if L2 < 0 || n <= L2 {
+		vReach("C08.waiting.within")
+		vAssert(vAnd(r.err == nil, vEqBytes(r.b, d)), "C08.waiting.within-the-new-limit-delivered")
+	} else {
+		vReach("C08.waiting.over")
+		vAssert(r.err != nil, "C08.waiting.over-the-new-limit-never-complete")
+		first, nClose, _, ok := vCloseFrames(t.out)
+		vAssert(vAnd(ok, vAnd(nClose == 1, len(first) >= 2)), "C08.waiting.close-frame-sent")
+		if ok && nClose == 1 && len(first) >= 2 {
+			vAssert(int(first[0])<<8|int(first[1]) == 1009, "C08.waiting.close-1009")
+		}
+	}
+	c.CloseNow()
+	vObserve("c08waiting", L1, L2, n, r.err == nil)
+}
